@@ -8,13 +8,21 @@ use std::io::{Read, Write};
 use std::net::TcpStream;
 use std::time::Duration;
 
-fn exchange(port: u16, host: Option<&str>, target: &str) -> String {
+fn exchange(port: u16, host: Option<&str>, target: &str, src: Option<&str>, xff: Option<&str>) -> String {
     for _ in 0..50 {
-        if let Ok(mut s) = TcpStream::connect(("127.0.0.1", port)) {
+        let conn = match src {
+            // from a chosen loopback source address (blacklist cases)
+            Some(ip) => Ok(crate::c19::socket_from(ip.parse().unwrap(), format!("127.0.0.1:{}", port).parse().unwrap())),
+            None => TcpStream::connect(("127.0.0.1", port)),
+        };
+        if let Ok(mut s) = conn {
             let _ = s.set_read_timeout(Some(Duration::from_millis(3000)));
             let mut req = format!("GET {} HTTP/1.1\r\n", target);
             if let Some(h) = host {
                 req.push_str(&format!("Host: {}\r\n", h));
+            }
+            if let Some(x) = xff {
+                req.push_str(&format!("X-Forwarded-For: {}\r\n", x));
             }
             req.push_str("Connection: close\r\n\r\n");
             if s.write_all(req.as_bytes()).is_err() {
@@ -38,6 +46,9 @@ fn exchange(port: u16, host: Option<&str>, target: &str) -> String {
                         break;
                     }
                 }
+            }
+            if buf.is_empty() {
+                return "noresp".to_string();
             }
             let text = String::from_utf8_lossy(&buf).to_string();
             let (head, body) = text.split_once("\r\n\r\n").unwrap_or((&text, ""));
@@ -122,9 +133,12 @@ pub fn dispatch(name: &str, args: &[&str]) -> Option<String> {
             }
             let mut out = Vec::new();
             for r in args[2].split(',') {
-                let (h, t) = r.split_once(':').unwrap();
-                let host = if h == "-" { None } else { Some(unhex_str(h)) };
-                out.push(exchange(port, host.as_deref(), &unhex_str(t)));
+                // host|-:target[:source ip[:X-Forwarded-For]]
+                let f: Vec<&str> = r.split(':').collect();
+                let host = if f[0] == "-" { None } else { Some(unhex_str(f[0])) };
+                let src = f.get(2).filter(|x| **x != "-").map(|x| unhex_str(x));
+                let xff = f.get(3).filter(|x| **x != "-").map(|x| unhex_str(x));
+                out.push(exchange(port, host.as_deref(), &unhex_str(f[1]), src.as_deref(), xff.as_deref()));
             }
             Some(out.join(","))
         }
